@@ -265,7 +265,7 @@ func convBound(c *Case) time.Duration {
 // clause is judged (see the package comment in c15_test.go).
 func dropRequired(class string) bool {
 	switch class {
-	case "stalled_reader", "tcp_stall", "tcp_reset":
+	case "stalled_reader", "tcp_stall", "tcp_reset", "tcp_stall_quiet":
 		return true
 	case "no_ack":
 		// open finding (a session that is read but never acknowledged is never
@@ -333,7 +333,7 @@ func runCase(spec *ChildSpec) *Result {
 			if err == nil {
 				raw.readForever()
 			}
-		case "tcp_stall", "tcp_reset":
+		case "tcp_stall", "tcp_reset", "tcp_stall_quiet":
 			var paddr string
 			px, paddr, err = startProxy(prim.Addr)
 			if err == nil {
@@ -363,7 +363,7 @@ func runCase(spec *ChildSpec) *Result {
 	}
 	trigger := func() {
 		switch c.Fault.Class {
-		case "tcp_stall":
+		case "tcp_stall", "tcp_stall_quiet":
 			px.stall()
 		case "tcp_reset":
 			px.reset()
@@ -410,6 +410,27 @@ func runCase(spec *ChildSpec) *Result {
 		}
 		if c.Fault.Class != "none" && i == c.Fault.TriggerAt {
 			trigger()
+			if c.Fault.Class == "tcp_stall_quiet" {
+				// clause 2 first: nothing has been written, nothing is outstanding
+				r.setStep("quiet-drop-wait")
+				q0 := time.Now()
+				for time.Since(q0) <= time.Duration(res.DropBoundMs)*time.Millisecond {
+					if present, ok := inTopology(prim.Mgr, faultyAddr, 5*time.Second); ok && !present {
+						res.DropMs = time.Since(q0).Milliseconds()
+						break
+					}
+					time.Sleep(50 * time.Millisecond)
+				}
+				r.setStep("")
+				if res.DropMs < 0 {
+					res.Sessions = sessionsTimed(prim.Mgr, 5*time.Second)
+					res.Verdict = "violation"
+					res.Sig = fmt.Sprintf("faulty-session-not-dropped:fault=%s:hb_empty=%v", c.Fault.Class, c.HB.SendEmpty)
+					res.Msg = fmt.Sprintf("%d ms after its connection was blackholed on an idle primary (10 x heartbeat timeout %d ms) GetNodeInfo still lists the replica %s; sessions in Status(): %v",
+						time.Since(q0).Milliseconds(), c.HB.TimeoutMs, faultyAddr, res.Sessions)
+					return res
+				}
+			}
 		}
 		if s.Op == "sleep" {
 			time.Sleep(time.Duration(s.Ms) * time.Millisecond)
@@ -447,7 +468,7 @@ func runCase(spec *ChildSpec) *Result {
 	// ---- clause 2: the faulty session leaves the reported topology -----------
 	endWork := time.Now()
 	r.setStep("judge")
-	if c.Fault.Class != "none" {
+	if c.Fault.Class != "none" && c.Fault.Class != "tcp_stall_quiet" {
 		bound := time.Duration(res.DropBoundMs) * time.Millisecond
 		if !dropRequired(c.Fault.Class) {
 			bound = 0 // observed once, not judged
